@@ -183,6 +183,14 @@ def check_roles(ctx, db, rid, only_functions=None, only_objects=None, floor=1):
         if ent is None and key[1] in ('load', 'wait') and acq(success_order(e)):
             ent = ('consume', 'not in the role table; a load can at most consume, and it acquires')
         if ent is None:
+            # an operation moved into a function the table does not know (and whose callers do not decide it): judge it by the strictest
+            # role the table gives this operation on this object anywhere
+            rs = [v[0] for k_, v in ROLES.items() if k_[1] == key[1] and k_[2] == key[2] and key[2]]
+            if rs:
+                strict = max(rs, key=lambda r_: {'any': 0, 'publish': 1, 'consume': 1, 'pubcons': 2}[r_])
+                if len({r_ for r_ in rs if r_ != 'any'}) <= 1:
+                    ent = (strict, 'not in the role table for this function; the strictest role of this operation on this object elsewhere')
+        if ent is None:
             unclassified.append('%s %s on %s at %s' % key[:3] + (relloc(e['loc']),) if False else '%s: %s on %s at %s' % (key[0], key[1], key[2], relloc(e['loc'])))
             continue
         role, why = ent
